@@ -221,9 +221,17 @@ func (wd *World) liveness() (string, string) {
 				ch <- res{"dead", fmt.Sprintf("probe panicked: %v", r)}
 			}
 		}()
-		if !wd.w.WaitTasks(15 * time.Second) {
-			ch <- res{"dead", "background task (import/remove) never finished"}
-			return
+		if !wd.w.WaitTasks(3 * time.Second) {
+			// a rescan batch is refused (and retried) while the node is on a chain the follower has not been
+			// told about (/repo 9b649ff): a background import can only finish once the node's tip was announced —
+			// which the node always does eventually. Announce it, then wait.
+			if t := wd.n.Tip(); t != nil {
+				wd.w.Notify(t)
+			}
+			if !wd.w.WaitTasks(15 * time.Second) {
+				ch <- res{"dead", "background task (import/remove) never finished"}
+				return
+			}
 		}
 		pay := wd.stranger[0]
 		if len(wd.ws) > 1 {
@@ -313,7 +321,9 @@ func worker(scen string, inst, part, nreq, only int, path string) int {
 	p := buildPools(wd)
 	ms := apiMethods(wd.api)
 	stopped := scen == "stopped"
-	held := stopped || scen == "importing" || scen == "removing1" || scen == "removing2" || strings.HasPrefix(wd.state, "starting:worker-frozen")
+	// (lagging-reorg: an import accepted while the wallet lags behind the node's reorganisation cannot finish before
+	// the node's tip is announced — its batches are refused and retried, /repo 9b649ff —, so there is nothing to wait for)
+	held := stopped || scen == "importing" || scen == "removing1" || scen == "removing2" || scen == "lagging-reorg" || strings.HasPrefix(wd.state, "starting:worker-frozen")
 	gr := rng.New(seed*15485863 + uint64(inst)*32452843 + uint64(part)*49979687 + uint64(len(scen)))
 	for k := 0; k < nreq; k++ {
 		g := genCase(wd, p, ms, gr)
